@@ -63,6 +63,19 @@ Theorem C15_posterior_mean_spec :
 Proof. exact post_mean_exact_spec. Qed.
 Print Assumptions C15_posterior_mean_spec.
 
+(* ... spelled out as compositions (the assembled matrix A^T Pe A acts as A^T (Pe (A y)) for symmetric Pe):
+   A^T Pe A y + Px y = A^T Pe b + Px x0 *)
+Theorem C15_posterior_mean_normal_eq :
+  forall (m n : nat) (A : list (list Qc)) (b x0 : list Qc) (ce cx : covform) (y : list Qc),
+  post_mean_exact m n A b x0 ce cx = Some y ->
+  exists Pe Px, qinv (dense_of true m ce) = Some Pe /\ qinv (dense_of true n cx) = Some Px /\
+    (wf_mat n A -> length A = m -> wf_mat m Pe -> length Pe = m -> q_sym m Pe -> wf_mat n Px -> length Px = n ->
+     length y = n ->
+     qvadd (qmattvec n A (qmatvec Pe (qmatvec A y))) (qmatvec Px y) =
+     qvadd (qmattvec n A (qmatvec Pe b)) (qmatvec Px x0)).
+Proof. exact post_mean_exact_normal_eq. Qed.
+Print Assumptions C15_posterior_mean_normal_eq.
+
 (* "If a requested estimate cannot be computed correctly the call fails": Gaussians created with prec / sqrtcov /
    sqrtprec (no compute_cov() since) make MAP and the direct sampler raise, whichever of the two it is; a value is
    only ever returned with both covariances at hand; a length-1 prior mean with n > 1 raises *)
